@@ -405,7 +405,13 @@ func (s *c10State) genOp() (op ftOp, craft string) {
 		for i := 0; i < n; i++ {
 			switch {
 			case len(pool) > 0 && rc.Chance(0.6):
-				out = append(out, pool[rc.Intn(len(pool))])
+				id := pool[rc.Intn(len(pool))]
+				if rc.Chance(0.12) {
+					// a listed id with white space around it is a different id (it names nothing that is listed)
+					id = rc.PickS([]string{" ", "\t", ""}) + id + rc.PickS([]string{" ", "\n", ""})
+					craft = "padded-id"
+				}
+				out = append(out, id)
 			case rc.Chance(0.8):
 				if list == "e" {
 					out = append(out, ftEditorID(t.Tracking, s.c.Accs[rc.Intn(4)].Bech))
